@@ -598,6 +598,19 @@ def reference(line):
             x = ms / 1000.0                                   # python float: the same binary64 quotient
             n, den = x.as_integer_ratio()
             return "%d %d %d %s %s" % (n, den.bit_length() - 1, _math.floor(x * 1000 + 0.5), " ".join(str(v) for v in py_fields(ms)[:7]), py_fmt(4, ms))
+        if op == "addsec":
+            ms, sec = int(t[1]), int(t[2])
+            r = ms + 1000 * sec
+            if not (MS_MIN <= ms <= MS_MAX and MS_MIN <= r <= MS_MAX):
+                return None
+            x = ms / 1000.0 + float(sec)
+            n, den = x.as_integer_ratio()
+            return "%d %d %d %s %s" % (n, den.bit_length() - 1, r, " ".join(str(v) for v in py_fields(r)[:7]), py_fmt(4, r))
+        if op == "cmp":
+            m1, m2 = int(t[1]), int(t[2])
+            if not (MS_MIN <= m1 <= MS_MAX and MS_MIN <= m2 <= MS_MAX):
+                return None
+            return "lt=%d le=%d gt=%d" % (m1 < m2, m1 <= m2, m1 > m2)
         if op == "instu":
             ms = round_ms(int(t[1]))
             return py_inst(ms) if MS_MIN <= ms <= MS_MAX else None
@@ -844,6 +857,28 @@ def gen(rng, tier):
     cases.append(batch)
     for _ in range(40 if big else 6):
         cases.append(["dbl %d" % (rng.randrange(-5000, 5000) if rng.random() < 0.1 else rand_ms(rng) if rng.random() < 0.97 else rng.choice([MS_MIN - 1 - rng.randrange(10 ** 9), MS_MAX + 1 + rng.randrange(10 ** 9)])) for _ in range(50)])
+    # --- arithmetic and order on stored dates: Date + s / Date - s (whole seconds; the sum is rounded to a double again) and < <= >
+    #     of instants 0, 1, 2 ms apart and far apart; cancellations to around the epoch; results across binade edges; out of range
+    for _ in range(30 if big else 5):
+        batch = []
+        for _ in range(25):
+            ms = rand_ms(rng)
+            r = rng.random()
+            if r < 0.3:
+                sec = rng.choice([1, -1, 60, -60, 3600, 86400, -86400, 7 * 86400, 365 * 86400, -366 * 86400]) * rng.randrange(1, 40)
+            elif r < 0.5:
+                sec = -(ms // 1000) + rng.randrange(-3, 4)                      # cancels to within seconds of the epoch
+            elif r < 0.65:
+                sec = rng.choice([1, -1]) * 2 ** rng.randrange(38) - ms // 1000 + rng.randrange(-1, 2)    # lands on a binade edge
+            elif r < 0.95:
+                sec = (rand_ms(rng) - ms) // 1000
+            else:
+                sec = rng.choice([1, -1]) * rng.randrange(3 * 10 ** 11, 10 ** 13)   # mostly out of range
+            batch.append("addsec %d %d" % (ms, sec))
+            m2 = ms + rng.choice([0, 1, -1, 2, -2, 1000, -1000, rng.randrange(-10 ** 6, 10 ** 6)]) if rng.random() < 0.8 else rand_ms(rng)
+            batch.append("cmp %d %d" % (ms, m2))
+        batch += ["addsec 0 0", "addsec %d 0" % MS_MAX, "addsec %d -1" % MS_MIN, "addsec 1 x", "cmp 5", "cmp %d %d" % (MS_MIN, MS_MAX), "cmp %d %d" % (MS_MAX, MS_MAX + 1)]
+        cases.append(batch)
     for k in (-719162, -1, 0, 1, 11016, 47482, 2932896):       # t = 86400 k - eps, eps = 0.0001 .. 0.0009 s
         cases.append(["instu %d" % (k * 86400 * 1000000 - e) for e in (100, 200, 300, 400, 600, 700, 800, 900) if not (abs(k) > 100000 and e in (400, 600))])
     # --- every zone offset -23:59..+23:59 (all styles in thorough, one random style each in quick)
@@ -973,7 +1008,7 @@ def gen(rng, tier):
 
 
 def nontrivial(case):
-    return any(l.split()[0] in ("inst", "instu", "dbl", "tieu", "rtp", "split", "splitu", "make", "rt", "fmt", "fmtu", "parsefmt") or (l.startswith("parse ") and len(l.split()[1]) >= 16) for l in case)
+    return any(l.split()[0] in ("inst", "instu", "dbl", "addsec", "cmp", "tieu", "rtp", "split", "splitu", "make", "rt", "fmt", "fmtu", "parsefmt") or (l.startswith("parse ") and len(l.split()[1]) >= 16) for l in case)
 
 
 def _parse_class(b):
